@@ -1,10 +1,10 @@
 package main
 
 import (
-	"strings"
 	"fmt"
 	"go/token"
 	"go/types"
+	"strings"
 
 	"golang.org/x/tools/go/ssa"
 )
@@ -1397,6 +1397,27 @@ func checkMapReduce(c *Ctx, fn *ssa.Function, name string, rule string, joinOnly
 				guarded = true
 			}
 		}
+		if !guarded && f != fn {
+			// the body of a literal that is run through a sync.Once and nothing else
+			onlyOnce := false
+			eachInstrDeep(fn, func(_ *ssa.Function, in ssa.Instruction) {
+				mc, ok := in.(*ssa.MakeClosure)
+				if !ok || mc.Fn != ssa.Value(f) {
+					return
+				}
+				n, once := 0, 0
+				for _, r := range *mc.Referrers() {
+					n++
+					if cc := callOf(r); cc != nil && callIs(cc, "sync.(*Once).Do") {
+						once++
+					}
+				}
+				onlyOnce = n > 0 && n == once
+			})
+			if onlyOnce {
+				guarded = true
+			}
+		}
 		if !guarded && len(closes) == 1 {
 			// the one close, as a plain statement of the transfer function itself and outside every loop: executed at
 			// most once per call (the first error peeled off the reduce loop closes it, the loop that follows does not)
@@ -1640,7 +1661,7 @@ func checkEOFIsTheServersWord(c *Ctx, rule string) {
 			}
 		})
 	}
-	c.check(n >= 3, rule, "EOF tests on the download paths", "?", fmt.Sprintf("%d tests", n), fmt.Sprintf("only %d EOF tests found on the download paths", n))
+	c.check(n >= 2, rule, "EOF tests on the download paths", "?", fmt.Sprintf("%d tests", n), fmt.Sprintf("only %d EOF tests found on the download paths", n))
 }
 
 // checkWriteFailureLatched (C04.R10): sendPacket(w, m) puts a frame on the wire in more than one Write.  When one of
